@@ -446,6 +446,11 @@ fn eval_budget(c: &Check, v: &mut Verdict) {
         None => return,
     };
     v.bump(if fin { "finished" } else { "interrupted" });
+    if o.budget_left > b {
+        // a budget only ever shrinks; one that grows can never run out
+        v.fail("budget-grew", 0, format!("execute_limited was given a budget of {} and left {} in the context", b, o.budget_left));
+        return;
+    }
     if o.overflow && r.status != Status::Halted {
         // The implementation ran past what the (truncated) reference knows; the event
         // cap then refused a byte, which is a fault this check is not about: only the
